@@ -17,6 +17,21 @@ CHECKS: Dict[str, Dict[str, str]] = {
         "variants in the thorough tier); `assert` statements are beliefs, not guards.",
         design="3/C12",
     ),
+    "C05": dict(
+        technique="static analysis: guard extraction (ast path conditions, constructor flattening through super().__init__) "
+        "decided as accepted regions / truth tables over finite boundary domains; reserved-name patterns compared by "
+        "DFA language equivalence; exception-class resolution over the class hierarchy",
+        text="Every static rule of DSDL is located at its rule site (constructors of the type model, check_name, the "
+        "_check_aggregation overrides, directive handlers, _make_composite, finalize, the regulated port-ID tables, the "
+        "array forms of the parser) and decided from the source: numeric guards as accepted regions that include both sides "
+        "of every boundary, decision logic as truth tables over all consistent valuations of the extracted atoms, reserved "
+        "names as regular-language equivalence with the Specification, and every rejection's class against "
+        "InvalidDefinitionError. Exhaustive over each rule's abstract domain; does not decide that every construction "
+        "path invokes the rule beyond the listed must-call obligations.",
+        note="Trusted: the Specification tables in sa/spec_tables.py; composite alignment = 8 (decided by C02); the extractor "
+        "itself (self-validated by 22 variants in the thorough tier).",
+        design="3/C05",
+    ),
 }
 
 NOT_APPLICABLE: Dict[str, str] = {}
